@@ -329,12 +329,13 @@ Section Abstract.
   Lemma ds_merge_spec s o e s' e' :
     inv s -> inv o -> ds_merge K s o e = Some (s', e') ->
     inv s' /\ d_k s' = d_k s /\ d_dim s' = d_dim s /\ (nlev s <= nlev s')%nat /\
-    (d_ret o = 0 -> s' = s) /\
-    (d_ret o <> 0 -> d_dim o = d_dim s /\ d_n s' = d_n s + d_n o).
+    d_n s' = d_n s + d_n o /\
+    (d_n o = 0 -> s' = s) /\
+    (d_n o <> 0 -> d_dim o = d_dim s).
   Proof.
     intros Hs Ho. unfold ds_merge.
-    destruct (Z.eqb_spec (d_ret o) 0) as [E0|E0].
-    - intros H; inversion H; subst. split; [exact Hs|]. repeat split; auto; intros; contradiction.
+    destruct (Z.eqb_spec (d_n o) 0) as [E0|E0].
+    - intros H; inversion H; subst. split; [exact Hs|]. repeat split; auto; try lia; intros; contradiction.
     - destruct (Z.eqb_spec (d_dim o) (d_dim s)) as [Ed|Ed]; [|discriminate]. cbn [negb].
       set (m := {| d_k := d_k s; d_dim := d_dim s; d_ret := d_ret s + d_ret o; d_n := d_n s + d_n o;
                    d_levels := zip_app (d_levels s) (d_levels o) |}).
@@ -351,9 +352,9 @@ Section Abstract.
       unfold inv. split; [split; [exact Hwf1|lia]|]. repeat split; auto; try lia; try contradiction.
   Qed.
 
-  Lemma ds_merge_refused s o e : ds_merge K s o e = None <-> d_ret o <> 0 /\ d_dim o <> d_dim s.
+  Lemma ds_merge_refused s o e : ds_merge K s o e = None <-> d_n o <> 0 /\ d_dim o <> d_dim s.
   Proof.
-    unfold ds_merge. destruct (Z.eqb_spec (d_ret o) 0) as [E0|E0].
+    unfold ds_merge. destruct (Z.eqb_spec (d_n o) 0) as [E0|E0].
     - split; [discriminate|tauto].
     - destruct (Z.eqb_spec (d_dim o) (d_dim s)) as [Ed|Ed]; cbn [negb].
       + split; [discriminate|tauto].
@@ -380,31 +381,21 @@ Section Abstract.
       apply ds_merge_spec in E; [tauto|exact IH1|apply IH2].
   Qed.
 
-  (* no merge source with num_retained = 0 carries inputs (see C20_merge_n_lost_witness for why this is needed) *)
-  Fixpoint lossless (h : hist) : Prop :=
-    match h with
-    | HNew _ _ => True
-    | HUpd h _ _ => lossless h
-    | HMerge h1 h2 _ => lossless h1 /\ lossless h2 /\ (d_ret (eval K h2) = 0 -> inputs K h2 = [])
-    end.
-
-  Theorem n_exact : forall h, valid h -> lossless h ->
+  (* n is exact for EVERY merge tree (is_empty() <=> n_ == 0: a source whose compactions dropped every point still adds its n) *)
+  Theorem n_exact : forall h, valid h ->
     d_n (eval K h) = Z.of_nat (length (inputs K h)).
   Proof.
-    induction h as [k dim|h IH p e|h1 IH1 h2 IH2 e]; cbn [valid lossless eval inputs].
+    induction h as [k dim|h IH p e|h1 IH1 h2 IH2 e]; cbn [valid eval inputs].
     - reflexivity.
-    - intros Hv Hl. specialize (IH Hv Hl).
+    - intros Hv. specialize (IH Hv).
       destruct (ds_update K (eval K h) p e) as [[s' e']|] eqn:E; [|exact IH].
       apply ds_update_spec in E; [|apply eval_inv, Hv].
       rewrite app_length; simpl. lia.
-    - intros [Hv1 Hv2] (Hl1 & Hl2 & Hl). specialize (IH1 Hv1 Hl1). specialize (IH2 Hv2 Hl2).
+    - intros [Hv1 Hv2]. specialize (IH1 Hv1). specialize (IH2 Hv2).
       destruct (ds_merge K (eval K h1) (eval K h2) e) as [[s' e']|] eqn:E; [|exact IH1].
       apply ds_merge_spec in E; [|apply eval_inv, Hv1|apply eval_inv, Hv2].
-      destruct E as (_ & _ & _ & _ & Hz & Hnz).
-      rewrite app_length.
-      destruct (Z.eq_dec (d_ret (eval K h2)) 0) as [E0|E0].
-      + rewrite (Hz E0), (Hl E0). simpl. lia.
-      + destruct (Hnz E0) as [_ Hn]. lia.
+      destruct E as (_ & _ & _ & _ & Hn & _).
+      rewrite app_length. lia.
   Qed.
 
   (* ---- iteration ---- *)
@@ -518,9 +509,8 @@ Section Abstract.
       pose proof (eval_inv h1 Hv1) as Hi1. pose proof (eval_inv h2 Hv2) as [Hwf2 _].
       destruct (ds_merge K (eval K h1) (eval K h2) e) as [[s' e']|] eqn:E; [|split; assumption].
       unfold ds_merge in E.
-      destruct (Z.eqb_spec (d_ret (eval K h2)) 0) as [E0|E0].
+      destruct (Z.eqb_spec (d_n (eval K h2)) 0) as [E0|E0].
       + inversion E; subst s' e'; clear E.
-        destruct Hwf2 as (_ & _ & Hr2). rewrite IHl2, total_cons, total_nil in Hr2.
         assert (Hnil : inputs K h2 = []) by (apply length_zero_iff_nil; lia).
         rewrite Hnil, app_nil_r. split; assumption.
       + destruct (Z.eqb_spec (d_dim (eval K h2)) (d_dim (eval K h1))) as [Ed|Ed]; [|discriminate].
@@ -615,18 +605,19 @@ Section Abstract.
     Qed.
 
     Lemma ds_merge_pos s o e s' e' :
-      inv s -> wf o -> ds_merge K s o e = Some (s', e') -> (0 < d_ret s \/ d_ret o <> 0) -> 0 < d_ret s'.
+      inv s -> inv o -> ds_merge K s o e = Some (s', e') -> (0 < d_ret s \/ d_ret o <> 0) -> 0 < d_ret s'.
     Proof.
-      intros [Hs _] Ho. unfold ds_merge.
-      destruct (Z.eqb_spec (d_ret o) 0) as [E0|E0].
-      - intros H; inversion H; subst. intros [G|G]; [exact G|contradiction].
+      intros [Hs _] [Ho [_ Hon]]. unfold ds_merge.
+      destruct (Z.eqb_spec (d_n o) 0) as [E0|E0].
+      - intros H; inversion H; subst. intros [G|G]; [exact G|].
+        destruct Ho as (_ & _ & Hr2). lia.
       - destruct (Z.eqb_spec (d_dim o) (d_dim s)) as [Ed|Ed]; [|discriminate]. cbn [negb].
         set (m := {| d_k := d_k s; d_dim := d_dim s; d_ret := d_ret s + d_ret o; d_n := d_n s + d_n o;
                      d_levels := zip_app (d_levels s) (d_levels o) |}).
         destruct Hs as (Hk & Hne & Hr). destruct Ho as (Hk2 & Hne2 & Hr2).
         assert (Hm : wf m).
         { unfold wf, m; cbn [d_k d_ret d_levels]. rewrite zip_app_total. repeat split; auto using zip_app_ne; lia. }
-        intros H _. inversion H as [H']. 
+        intros H G. inversion H as [H'].
         change s' with (fst (s', e')). rewrite <- H'. apply run_compactions_pos; [exact Hm|].
         unfold m; cbn [d_ret]. lia.
     Qed.
@@ -646,16 +637,6 @@ Section Abstract.
         + left. apply IH1; [exact Hv1|discriminate].
     Qed.
 
-    Theorem lossless_pos : forall h, valid h -> lossless h.
-    Proof.
-      induction h as [k dim|h IH p e|h1 IH1 h2 IH2 e]; cbn [valid lossless]; auto.
-      intros [Hv1 Hv2]. repeat split; auto.
-      intros Hr. destruct (inputs K h2) as [|x t] eqn:E2; [reflexivity|].
-      assert (0 < d_ret (eval K h2)) by (apply pos_retained; [exact Hv2|rewrite E2; discriminate]). lia.
-    Qed.
-
-    Corollary n_exact_pos : forall h, valid h -> d_n (eval K h) = Z.of_nat (length (inputs K h)).
-    Proof. intros h Hv. apply n_exact; [exact Hv|now apply lossless_pos]. Qed.
   End Positive.
 
 End Abstract.
@@ -679,17 +660,35 @@ Section PropertyLevel.
     split; intros (h & H1 & H2 & H3); exists h; repeat split; auto; lia.
   Qed.
 
+  (* get_estimate is refused exactly on an empty sketch (n = 0) or for a query point of the wrong dimension *)
+  Lemma estimate_refused : forall s q,
+    ds_estimate K s q = None <-> d_n s = 0 \/ Z.of_nat (length q) <> d_dim s.
+  Proof.
+    intros s q. unfold ds_estimate.
+    destruct (Z.eqb_spec (d_n s) 0) as [E|E]; [tauto|].
+    destruct (Z.eqb_spec (Z.of_nat (length q)) (d_dim s)) as [D|D]; cbn [negb].
+    - split; [discriminate|tauto].
+    - tauto.
+  Qed.
+
+  (* ... hence defined, with denominator n = number of inputs, for every history with at least one input *)
+  Lemma estimate_defined : forall h q, valid h -> inputs K h <> [] -> Z.of_nat (length q) = d_dim (eval K h) ->
+    ds_estimate K (eval K h) q = Some (est_num K (eval K h) q, Z.of_nat (length (inputs K h))).
+  Proof.
+    intros h q Hv Hne Hd. pose proof (n_exact K h Hv) as Hn. unfold ds_estimate.
+    destruct (Z.eqb_spec (d_n (eval K h)) 0) as [E|E].
+    - destruct (inputs K h); [congruence|simpl in Hn; lia].
+    - rewrite Hd, Z.eqb_refl. cbn [negb]. now rewrite Hn.
+  Qed.
+
   Lemma exact_before_compaction : forall h q, valid h -> exact_mode K h -> inputs K h <> [] ->
+    Z.of_nat (length q) = d_dim (eval K h) ->
     ds_estimate K (eval K h) q = Some (ksum K q (inputs K h), Z.of_nat (length (inputs K h))) /\
     d_levels (eval K h) = [inputs K h].
   Proof.
-    intros h q Hv Hx Hne. destruct (exact_levels K h Hv Hx) as [Hl Hn].
+    intros h q Hv Hx Hne Hd. destruct (exact_levels K h Hv Hx) as [Hl Hn].
     destruct (exact_mean K h q Hv Hx) as [He _]. split; [|exact Hl].
-    unfold ds_estimate. destruct (eval_inv K h Hv) as ((_ & _ & Hr) & _).
-    rewrite Hl in Hr. unfold total in Hr; simpl in Hr. rewrite app_nil_r in Hr.
-    destruct (Z.eqb_spec (d_ret (eval K h)) 0) as [E|E].
-    - destruct (inputs K h); [congruence|simpl in Hr; lia].
-    - now rewrite He, Hn.
+    rewrite (estimate_defined h q Hv Hne Hd). now rewrite He.
   Qed.
 
   Lemma estimate_nonneg : (forall a b, 0 <= K a b) ->
@@ -697,9 +696,42 @@ Section PropertyLevel.
   Proof.
     intros HK h q num den Hv. unfold ds_estimate.
     destruct (eval_inv K h Hv) as ((_ & _ & Hr) & _ & Hn).
-    destruct (Z.eqb_spec (d_ret (eval K h)) 0) as [E|E]; [discriminate|].
+    destruct (Z.eqb_spec (d_n (eval K h)) 0) as [E|E]; [discriminate|].
+    destruct (negb (Z.of_nat (length q) =? d_dim (eval K h))); [discriminate|].
     intros H; inversion H; subst; clear H.
     assert (H0 : 0 <= est_num K (eval K h) q) by (apply est_levels_nonneg; [exact HK|lia]).
     split; [exact H0|lia].
   Qed.
+
+  (* the estimate numerator is the weighted kernel sum over the retained points exactly as the iterator reports them
+     (point, weight 2^level): for EVERY state, hence after any number of compactions and merges *)
+  Definition wksum (q : point) (it : list (point * Z)) : Z :=
+    fold_right (fun pw acc => snd pw * K (fst pw) q + acc) 0 it.
+
+  Lemma wksum_cons q x a : wksum q (x :: a) = snd x * K (fst x) q + wksum q a.
+  Proof. reflexivity. Qed.
+  Lemma wksum_app q a b : wksum q (a ++ b) = wksum q a + wksum q b.
+  Proof.
+    induction a as [|x a IH]; [reflexivity|].
+    change ((x :: a) ++ b) with (x :: (a ++ b)). rewrite !wksum_cons, IH. lia.
+  Qed.
+
+  Lemma wksum_level q w l : wksum q (map (fun p => (p, w)) l) = w * ksum K q l.
+  Proof.
+    induction l as [|p l IHl]; [cbn; lia|].
+    change (map (fun p0 => (p0, w)) (p :: l)) with ((p, w) :: map (fun p0 => (p0, w)) l).
+    rewrite wksum_cons, IHl. cbn [fst snd]. unfold ksum. cbn [map fold_right]. lia.
+  Qed.
+
+  Lemma est_levels_wksum : forall ls q w, est_levels K q w ls = wksum q (iter_levels w ls).
+  Proof.
+    induction ls as [|l t IH]; intros q w; cbn [est_levels iter_levels]; [reflexivity|].
+    rewrite wksum_app, IH, level_sum_ksum, wksum_level. reflexivity.
+  Qed.
+
+  Lemma estimate_weighted_sum : forall s q, est_num K s q = wksum q (ds_iterate s).
+  Proof. intros. apply est_levels_wksum. Qed.
+
+  (* total weight reported by the iterator *)
+  Definition wtotal (it : list (point * Z)) : Z := fold_right (fun pw acc => snd pw + acc) 0 it.
 End PropertyLevel.
